@@ -44,7 +44,7 @@ def seeds_table():
 
 def refac_table():
     out = []
-    for name, title in (("refactor_matrix.json", "round 1 (40 refactorings)"), ("refactor2_matrix.json", "round 2")):
+    for name, title in (("refactor_matrix.json", "round 1 (local rewrites)"), ("refactor2_matrix.json", "round 2 (other local rewrites)"), ("refactor3_matrix.json", "round 3 (medium-size structural refactorings)")):
         p = os.path.join(V, "work", name)
         if not os.path.exists(p):
             continue
